@@ -74,9 +74,9 @@ PROPS = {
             "identical over the reals (computer algebra on terms extracted from the MIR). Not decided: that the references have the documented "
             "law (cited), rounding, the ziggurat primitives (C06), the single-draw transforms (C13). Beta (Cheng BB/BC incl. Beta::new) is covered."),
     "C02": ("rules_c02", "other",
-            "Decided (agreement with the reference algorithm, not the pmf): Zeta (new, sample) and Zipf (new, inv_cdf, sample) — the samplers that take one "
-            "rejection step per iteration without carried state: every comparison is a test of the reference, equal decision functions, identical returned "
-            "terms and derived constants. Not examined: Binomial, Poisson, Geometric, StandardGeometric, Hypergeometric (loop-carried state, nested loops). "
+            "Decided (agreement with the reference algorithm, not the pmf): Zeta, Zipf, Poisson/Knuth, StandardGeometric, Binomial::new, BINV and BTPE — "
+            "every comparison is a test of the reference, same successor / same updates of the loop-carried variables / same returned terms on every "
+            "feasible path pair, identical derived constants. Not examined yet: Poisson Ahrens-Dieter, Geometric, Hypergeometric. "
             "Not decided anywhere: the probability mass function itself."),
     "C10": ("rules_c10", "other",
             "Decided (structural clauses of the descent): the target is random_range(ZERO..root subtotal); in one iteration of the descent, on every "
